@@ -502,3 +502,101 @@ Proof.
     + intros E. apply (Hfresh w Hw1). congruence.
   - apply in_or_app. right. left. auto.
 Qed.
+
+(* ---------------- processables are the sender's lowest pooled nonces ---------------- *)
+Definition LowPool (p : pool) : Prop := forall a L, afind a (accts p) = Some L -> LowInv L.
+
+Lemma remove_tx_low : forall c id p, PoolInv c p -> LowPool p -> LowPool (fst (remove_tx id p)).
+Proof.
+  intros c id p HI HL. unfold remove_tx. destruct (find_id id (all p)) as [ex|]; [|exact HL].
+  destruct (afind (tsender ex) (accts p)) as [L|] eqn:EL; [|exact HL].
+  destruct (inv_lists _ _ HI _ _ EL) as [HLI _].
+  destruct (l_size _ =? 0)%nat; cbn [fst]; intros a' L0 H0; cbn [accts] in H0.
+  - destruct (N.eq_dec (tsender ex) a') as [<-|Hne]; [rewrite afind_adel_eq in H0; discriminate|].
+    rewrite afind_adel_neq in H0 by auto. eauto.
+  - destruct (N.eq_dec (tsender ex) a') as [<-|Hne].
+    + rewrite afind_aset_eq in H0. inversion H0; subst. eapply list_remove_low; eauto.
+    + rewrite afind_aset_neq in H0 by auto. eauto.
+Qed.
+
+Lemma evict_low : forall c ch p, PoolInv c p -> LowPool p -> LowPool (fst (evict ch p)).
+Proof.
+  intros. unfold evict. destruct (pick_min (unprocessable_cands p) ch); cbn [fst]; [eapply remove_tx_low; eauto|].
+  destruct (pick_min (processable_cands p) ch); cbn [fst]; [eapply remove_tx_low; eauto|auto].
+Qed.
+
+Lemma pool_add_low : forall c t v pub ch p, cfg_ok c -> PoolInv c p -> LowPool p -> LowPool (fst (pool_add c t v pub ch p)).
+Proof.
+  intros c t v pub ch p [Hc1 Hc2] HI HL. unfold pool_add.
+  destruct (existsb (fun u => tid u =? tid t) (all p)); [exact HL|].
+  destruct (tprio t <? min_entrance c); [exact HL|].
+  destruct ((max_txs c <=? length (all p))%nat && negb (is_nil (queue p)) && (tprio t <=? min_prio (queue p))); [exact HL|].
+  destruct (is_invalid v); [exact HL|].
+  destruct (if (max_txs c <=? length (all p))%nat then evict ch p else (p, None)) as [p1 ev] eqn:Epe.
+  assert (Hp1 : PoolInv c p1 /\ LowPool p1).
+  { destruct (max_txs c <=? length (all p))%nat.
+    - assert (p1 = fst (evict ch p)) by (rewrite Epe; auto). subst p1. split; [apply evict_inv; auto|eapply evict_low; eauto].
+    - inversion Epe; subst. auto. }
+  destruct Hp1 as [HI1 HL1].
+  set (L := match afind (tsender t) (accts p1) with Some L => L | None => empty_list end).
+  assert (HLI : ListInv (max_per c) (tsender t) L).
+  { unfold L. destruct (afind (tsender t) (accts p1)) eqn:EL; [apply (inv_lists _ _ HI1 _ _ EL)|apply empty_list_inv]. }
+  assert (HLL : LowInv L).
+  { unfold L. destruct (afind (tsender t) (accts p1)) eqn:EL; [eauto|apply empty_list_low]. }
+  pose proof (list_add_low (max_per c) (min_diff c) (tsender t) t L Hc2 HLI HLL) as HL'.
+  destruct (list_add (max_per c) (min_diff c) t false L) as [[L' ok] removed] eqn:Eadd. cbn [fst] in HL'.
+  destruct ok; cbn [negb fst].
+  - intros a' L0 H0. cbn [accts] in H0. destruct (N.eq_dec (tsender t) a') as [<-|Hne].
+    + rewrite afind_aset_eq in H0. inversion H0; subst. auto.
+    + rewrite afind_aset_neq in H0 by auto. eauto.
+  - destruct (afind (tsender t) (accts p1)) eqn:EL; [exact HL1|].
+    intros a' L0 H0. cbn [accts] in H0. destruct (N.eq_dec (tsender t) a') as [<-|Hne].
+    + rewrite afind_aset_eq in H0. inversion H0; subst. apply empty_list_low.
+    + rewrite afind_aset_neq in H0 by auto. eauto.
+Qed.
+
+Lemma promote_in_low : forall c a live ts p, PoolInv c p -> LowPool p -> LowPool (promote_in a live ts p).
+Proof.
+  intros c a live ts p HI HL. unfold promote_in. destruct live; auto. destruct (afind a (accts p)) as [L|] eqn:EL; auto.
+  intros a' L0 H0. cbn [accts] in H0. destruct (N.eq_dec a a') as [<-|Hne].
+  - rewrite afind_aset_eq in H0. inversion H0; subst. destruct (inv_lists _ _ HI _ _ EL). eapply list_promote_low; eauto.
+  - rewrite afind_aset_neq in H0 by auto. eauto.
+Qed.
+
+Lemma reorg_step_low : forall c a vd p, PoolInv c p -> LowPool p -> LowPool (reorg_step a vd p).
+Proof.
+  intros c a vd p HI HL. unfold reorg_step. destruct (find_pend a (pending p)) as [e|]; auto.
+  destruct (p_stage e) as [|proms|prs proms|ids].
+  - destruct (match (if p_live e then afind a (accts p) else None) with Some L => get_promotable L | None => [] end); exact HL.
+  - exact HL.
+  - destruct (first_invalid vd (prs ++ proms)) as [fid|].
+    + set (fi := index_of fid (prs ++ proms)).
+      assert (H1 : LowPool (if (length prs + 1 <=? fi)%nat
+                            then promote_in a (p_live e) (firstn (fi - length prs) proms) (add_verified (map tid (firstn fi (prs ++ proms))) p)
+                            else add_verified (map tid (firstn fi (prs ++ proms))) p)).
+      { destruct (length prs + 1 <=? fi)%nat; [|exact HL]. eapply promote_in_low; [apply add_verified_inv; eauto|exact HL]. }
+      destruct (skipn fi (prs ++ proms)); exact H1.
+    + cbn [with_pending accts]. intros a' L0 H0. eapply (promote_in_low c a (p_live e) proms (add_verified (map tid (prs ++ proms)) p)); eauto.
+      apply add_verified_inv; auto.
+  - destruct ids as [|id rest]; [exact HL|]. destruct rest; cbn [with_pending]; intros a' L0 H0; cbn [accts] in H0;
+      eapply (remove_tx_low c id p); eauto.
+Qed.
+
+Theorem run_low : forall c ops, cfg_ok c -> LowPool (run c ops).
+Proof.
+  intros c ops Hc. unfold run.
+  assert (G : forall p, PoolInv c p -> LowPool p -> PoolInv c (fold_left (pool_step c) ops p) /\ LowPool (fold_left (pool_step c) ops p)).
+  { induction ops as [|o r IH]; simpl; auto. intros p HI HL. apply IH; [apply pool_step_inv; auto|].
+    destruct o; simpl.
+    - apply pool_add_low; auto.
+    - eapply remove_tx_low; eauto.
+    - unfold reorg_spawn. destruct (pending p); exact HL.
+    - eapply reorg_step_low; eauto. }
+  apply G; [apply empty_inv|]. intros a L H. simpl in H. discriminate.
+Qed.
+
+(* every pooled nonce of a sender below one of its processable nonces is processable too:
+   together with gap-freeness, the processables are exactly the sender's lowest pooled nonces *)
+Theorem processables_are_lowest : forall c ops a L, cfg_ok c -> afind a (accts (run c ops)) = Some L ->
+  forall n p, In n (nonces L) -> In p (procs L) -> n < p -> In n (procs L).
+Proof. intros c ops a L Hc HL. exact (run_low c ops Hc a L HL). Qed.
